@@ -50,7 +50,7 @@ for mod,structs in by.items():
         open spec fn progresses() -> bool {{ false }}
         open spec fn self_delimiting() -> bool {{ false }}
         open spec fn dec_rel(b: Seq<u8>, v: &{n}, k: int) -> bool {{ true }}
-        open spec fn dec_total() -> bool {{ false }}
+        open spec fn dec_total(b: Seq<u8>) -> bool {{ false }}
         /// the tag loop stops only at the end of the input, in front of something that is no tag, or in front of a tag that
         /// is not one of this struct's non-repeatable fields
         open spec fn dec_stop(rest: Seq<u8>) -> bool {{ {stop} }}
